@@ -67,6 +67,8 @@ func cleanupAll() {
 
 // setup builds the real CLI from $VERIF_REPO and the template repository.
 func setup() *Env {
+	// no process of this check may autolaunch a dbus-daemon (keyring library init)
+	os.Setenv("DBUS_SESSION_BUS_ADDRESS", "unix:path=/nonexistent")
 	self, err := os.Executable()
 	if err != nil {
 		fail("%v", err)
@@ -80,7 +82,7 @@ func setup() *Env {
 	gitbug := filepath.Join(buildDir, "git-bug")
 	cmd := exec.Command("go", "build", "-buildvcs=false", "-o", gitbug, ".")
 	cmd.Dir = repoSrc
-	cmd.Env = append(os.Environ(), "GOFLAGS=-mod=mod", "GOPROXY=off", "GOSUMDB=off", "GOTOOLCHAIN=local")
+	cmd.Env = append(os.Environ(), "GOFLAGS=-mod=mod", "GOPROXY=off", "GOSUMDB=off", "GOTOOLCHAIN=local", "DBUS_SESSION_BUS_ADDRESS=unix:path=/nonexistent")
 	if out, err := cmd.CombinedOutput(); err != nil {
 		fail("cannot build git-bug from %s: %v\n%s", repoSrc, err, out)
 	}
